@@ -265,3 +265,68 @@ pub fn cmd_replay(args: &[String]) -> i32 {
     out.flush().unwrap();
     0
 }
+
+/// `vh builder-replay <vectors.ndjson> <events.ndjson> [--shard i/n]`: every abstract document of
+/// spec/MC_Builder.tla is written as Markdown (kept only when an independent parse of the text gives the
+/// document back, items that start with a list unmerged), built by the real `Graph`, and the arena is recorded
+/// for spec/Trace_Builder.tla, which builds the same document with the transcribed builder (Builder.tla).
+pub fn cmd_builder(args: &[String]) -> i32 {
+    use crate::absdoc::{norm_doc_raw, Doc};
+    use crate::project::project_raw;
+    use crate::render::{render, variants};
+    let mut shard = (0usize, 1usize);
+    let mut i = 2;
+    while i < args.len() {
+        if args[i] == "--shard" {
+            let p: Vec<usize> = args[i + 1].split('/').map(|s| s.parse().unwrap()).collect();
+            shard = (p[0], p[1]);
+            i += 1;
+        }
+        i += 1;
+    }
+    std::panic::set_hook(Box::new(|_| {}));
+    let input = std::io::BufReader::new(std::fs::File::open(&args[0]).expect("vectors"));
+    let mut out = std::io::BufWriter::new(std::fs::File::create(&args[1]).expect("events"));
+    let vs: Vec<_> = variants().into_iter().filter(|v| v.name == "loose-atx" || v.name == "tight-setext").collect();
+    let (mut cases, mut built, mut rejects) = (0usize, 0usize, 0usize);
+    for (ln, line) in input.lines().enumerate() {
+        if ln % shard.1 != shard.0 {
+            continue;
+        }
+        let line = line.unwrap();
+        if line.trim().is_empty() {
+            continue;
+        }
+        let v: Value = serde_json::from_str(&line).expect("vector json");
+        let doc: Doc = serde_json::from_value(v["doc"].clone()).expect("doc");
+        let intended = norm_doc_raw(&doc);
+        cases += 1;
+        let mut seen: Vec<String> = vec![];
+        for var in vs.iter() {
+            let text = render(&doc, var);
+            if seen.contains(&text) {
+                continue;
+            }
+            if project_raw(&text) != intended {
+                rejects += 1;
+                if std::env::var("VH_DEBUG").is_ok() {
+                    eprintln!("REJECT case {} {}:\n{}", ln, var.name, text);
+                }
+                continue;
+            }
+            seen.push(text.clone());
+            let key = Key::from_file_name("n1");
+            let r = catch(std::panic::AssertUnwindSafe(|| {
+                let mut g = Graph::new();
+                g.update_key(key.clone(), &text);
+                snapshot(&g).0
+            }));
+            let nodes = r.unwrap_or(json!([{"kind": "panic", "prev": -1, "next": -1, "child": -1, "key": ""}]));
+            built += 1;
+            writeln!(out, "{}", json!({"ev": "Build", "case": ln, "variant": var.name, "blocks": v["doc"]["blocks"], "text": text, "nodes": nodes})).unwrap();
+        }
+    }
+    out.flush().unwrap();
+    println!("{}", json!({"cases": cases, "built": built, "render_rejects": rejects}));
+    0
+}
